@@ -74,3 +74,8 @@ def run(ctx):
     n3, rej = wt.run_wire(ctx, select=lambda s: s["expect"]["kind"] == "packet" and (s["inject"] or s.get("flood")), label="c03w", focus="reply")
     wt.report(ctx, "C03", rej)
     wt.scanrun_validate(ctx, "C03", "c03s")
+    # stimuli enumerated by ScanRunGen (frame kind x phase of a two-pass scan), judged by ScanRunTrace
+    gen = wt.generated_scenarios(ctx, 6 if ctx.tier == "quick" else 60)
+    n5, rej = wt.run_wire(ctx, select=lambda s: s["name"].startswith("gen-"), label="c03g", focus="reply", extra=gen)
+    wt.report(ctx, "C03", rej)
+    wt.scanrun_validate(ctx, "C03", "c03gs")
